@@ -10,6 +10,7 @@ From FFS Require Import Conc.Atomic Conc.AtomicProofs Conc.FsWalletAtomic.
 From FFS Require Import Wallet.Notify Wallet.NotifyProofs.
 From FFS Require Import Conc.Reduction Wallet.NotifyRefine Wallet.NotifyConform.
 From FFS Require Import Conc.PathFind Conc.Monitor Wallet.NotifyExact Conc.RefereeExamples.
+From FFS Require Import Wallet.NotifyConverge Wallet.NotifyConvergeT Wallet.NotifyAlways Wallet.NotifyDistinct.
 From Coq Require Import Permutation.
 Import ListNotations.
 Open Scope list_scope.
@@ -544,3 +545,188 @@ Proof.
   split; [exact (proj1 ex_converges_hyps)|]. split; [exact (proj2 ex_converges_hyps)|].
   split; [reflexivity|exact ex_converges].
 Qed.
+
+(* ============================================================================================== *)
+(* Wave 6: convergence restated for the FINE-GRAINED system (closes part of the `partial` entry
+   "convergence ... only for the atomic Notify model"; design/C17.md "Wave 6") *)
+
+(* 10a. 8d with the discovery passes of the finished event threads exposed: a thread that started as
+      the handling of one file-system event (os.Stat f; notifyNewFiles [f]) and is finished in the
+      final state has its critical section IN the op sequence — ops = pre ++ mid ++ post where running
+      mid from the state after pre has exactly the effect of the model's FsEvent f there (the section
+      is identified by its effect: two listings may give the same action tree). *)
+Theorem C17_fine_grained_events :
+  forall addr_of ls thr sch sn,
+    wallet_threads addr_of thr ->
+    exec wcfg wstep (wallet_init ls thr) sch sn -> c_holder _ _ _ _ _ _ sn = None ->
+    exists ops,
+      run addr_of (init ls) ops = abs (c_p _ _ _ _ _ _ sn, c_e _ _ _ _ _ _ sn) /\
+      (NoDup (pls (c_p _ _ _ _ _ _ sn)) -> valid_seq addr_of (init ls) ops) /\
+      forall u f o, nth_error thr u = Some (event_code addr_of f) ->
+        nth_error (c_thr _ _ _ _ _ _ sn) u = Some (Done o) ->
+        exists pre mid post, ops = pre ++ mid ++ post /\
+          run addr_of (run addr_of (init ls) pre) mid = apply addr_of (run addr_of (init ls) pre) (FsEvent f).
+Proof. exact (translated_fine_grained_events fswallet_prog fuel (proj1 C17_discovery_steps_atomic) (proj1 C17_translated_paths_cover)). Qed.
+Print Assumptions C17_fine_grained_events.
+
+(* 10b. Convergence of the fine-grained system: at the end of ANY fine-grained execution (mux free,
+      listener channels distinct) in which every matching file present in the directory has a
+      FINISHED event thread, the account list is exactly (as a set) the addresses of the matching
+      files present.  The premise and the conclusion speak about the fine-grained execution only
+      (threads, final directory, final addressList); no op sequence of the model is mentioned. *)
+Theorem C17_fine_grained_converges :
+  forall addr_of ls thr sch sn,
+    wallet_threads addr_of thr ->
+    exec wcfg wstep (wallet_init ls thr) sch sn -> c_holder _ _ _ _ _ _ sn = None ->
+    NoDup (pls (c_p _ _ _ _ _ _ sn)) ->
+    let P := c_p _ _ _ _ _ _ sn in let E := c_e _ _ _ _ _ _ sn in
+    (forall f a, In f (ef E) -> addr_of f = Some a ->
+       exists u o, nth_error thr u = Some (event_code addr_of f) /\
+                   nth_error (c_thr _ _ _ _ _ _ sn) u = Some (Done o)) ->
+    forall a, In a (pl P) <-> In a (file_addrs addr_of (ef E)).
+Proof. exact (translated_fine_grained_converges fswallet_prog fuel (proj1 C17_discovery_steps_atomic) (proj1 C17_translated_paths_cover)). Qed.
+Print Assumptions C17_fine_grained_converges.
+
+(* non-vacuity: a file appears and its event is handled (11 steps): all hypotheses of 10b hold; and
+   the premise is needed — after the creation alone the file is present and the list is empty *)
+Example C17_fine_grained_converges_nonvacuous :
+  wallet_threads cv_addr cv_thr /\
+  exec wcfg wstep (wallet_init [100%N] cv_thr) cv_sched cv_final /\
+  c_holder _ _ _ _ _ _ cv_final = None /\ NoDup (pls (c_p _ _ _ _ _ _ cv_final)) /\
+  (forall f a, In f (ef (c_e _ _ _ _ _ _ cv_final)) -> cv_addr f = Some a ->
+     exists u o, nth_error cv_thr u = Some (event_code cv_addr f) /\
+                 nth_error (c_thr _ _ _ _ _ _ cv_final) u = Some (Done o)) /\
+  pl (c_p _ _ _ _ _ _ cv_final) = [3%N] /\
+  exec wcfg wstep (wallet_init [100%N] cv_thr) [0] cv_mid /\
+  ~ (forall a, In a (pl (c_p _ _ _ _ _ _ cv_mid)) <->
+               In a (file_addrs cv_addr (ef (c_e _ _ _ _ _ _ cv_mid)))).
+Proof.
+  split; [exact cv_threads|]. split; [exact cv_exec|]. split; [reflexivity|].
+  split; [cbn; repeat constructor; cbn; intuition discriminate|].
+  split; [exact cv_premise|]. split; [reflexivity|]. split; [exact cv_exec2|exact cv_needed].
+Qed.
+
+(* ---------------------------------------------------------------------------------------------- *)
+(* Wave 6, second item: the guard "the execution ends with mux free" ([c_holder sn = None]) of 8d/8e
+   removed from the SAFETY conclusions, and holder progress stated semantically for the
+   data-carrying system (Wallet/NotifyAlways.v). *)
+
+(* 11a. In EVERY reachable state of a wallet system, whoever holds mux can finish its critical section
+      on its own steps (schedule = h repeated): nobody is ever stuck holding mux, whatever the other
+      threads do or do not do.  The state reached has mux free, its (P, E) is [phi sn] (the completion
+      function the refinement proof uses), the directory and the receive log are those of sn,
+      notifier goroutines are only added, the other threads are untouched.  (Semantic counterpart, in
+      the interleaving semantics with data, of conjunct "a holder can step" of theorem 2; channel
+      operations are still not blocking in this semantics — see `partial`.) *)
+Theorem C17_holder_finishes :
+  forall addr_of ls thr sch sn h,
+    wallet_threads addr_of thr ->
+    exec wcfg wstep (wallet_init ls thr) sch sn -> c_holder _ _ _ _ _ _ sn = Some h ->
+    exists n sn',
+      exec wcfg wstep sn (repeat h n) sn' /\ c_holder _ _ _ _ _ _ sn' = None /\
+      (c_p _ _ _ _ _ _ sn', c_e _ _ _ _ _ _ sn') = phi sn /\
+      ef (c_e _ _ _ _ _ _ sn') = ef (c_e _ _ _ _ _ _ sn) /\
+      elog (c_e _ _ _ _ _ _ sn') = elog (c_e _ _ _ _ _ _ sn) /\
+      (exists extra, en (c_e _ _ _ _ _ _ sn') = en (c_e _ _ _ _ _ _ sn) ++ extra) /\
+      (forall u, u <> h -> nth_error (c_thr _ _ _ _ _ _ sn') u = nth_error (c_thr _ _ _ _ _ _ sn) u).
+Proof. exact holder_finishes. Qed.
+Print Assumptions C17_holder_finishes.
+
+(* 11b. 8e's safety conclusions at EVERY reachable state sn of the fine-grained system — no hypothesis
+      on the holder, so also while a goroutine is inside notifyNewFiles or AddListener: the receive
+      log E has no (listener, address) pair twice, nor one both delivered and queued; every pair
+      delivered or queued has a listener registered and an address listed in P' and the address is
+      that of a file present NOW; P'.addressList has no duplicates and lies within the addresses of
+      the files present.  P' = fst (phi sn) = the protected fields as the running critical section
+      (if any) leaves them at its Unlock — which is what the next reader under the lock sees; = P when
+      mux is free (then this is 8e without its last conjunct).  Distinct channels: NoDup of P'.listeners. *)
+Theorem C17_fine_grained_always :
+  forall addr_of ls thr sch sn,
+    wallet_threads addr_of thr ->
+    exec wcfg wstep (wallet_init ls thr) sch sn ->
+    NoDup (pls (fst (phi sn))) -> NoDup ls ->
+    let E := c_e _ _ _ _ _ _ sn in let P' := fst (phi sn) in
+    NoDup (elog E) /\
+    NoDup (elog E ++ flat_map n_remaining (en E)) /\
+    (forall l a, In (l, a) (elog E ++ flat_map n_remaining (en E)) ->
+       In l (pls P') /\ In a (pl P') /\ In a (file_addrs addr_of (ef E))) /\
+    NoDup (pl P') /\ incl (pl P') (file_addrs addr_of (ef E)).
+Proof. exact (translated_always_outcome fswallet_prog fuel (proj1 C17_discovery_steps_atomic) (proj1 C17_translated_paths_cover)). Qed.
+Print Assumptions C17_fine_grained_always.
+
+(* non-vacuity: a reachable state inside AddListener's critical section (listeners read, not yet
+   written; a file has appeared meanwhile): holder = thread 0, P.listeners = [100], P'.listeners =
+   [100; 7] — the hypotheses of 11a / 11b hold there, those of 8d / 8e do not *)
+Example C17_always_nonvacuous :
+  (forall addr_of, wallet_threads addr_of al_thr) /\
+  exists sn, exec wcfg wstep (wallet_init [100%N] al_thr) [0; 0; 1] sn /\
+    c_holder _ _ _ _ _ _ sn = Some 0 /\ pls (c_p _ _ _ _ _ _ sn) = [100%N] /\ ef (c_e _ _ _ _ _ _ sn) = [3%N] /\
+    pls (fst (phi sn)) = [100%N; 7%N] /\ NoDup (pls (fst (phi sn))).
+Proof. split; [exact ex_fine_threads|exact al_example]. Qed.
+
+(* ---------------------------------------------------------------------------------------------- *)
+(* Wave 6, third item: "listener channels are distinct" as a hypothesis on the INPUTS of the system
+   instead of on the final state (Wallet/NotifyDistinct.v).  [distinct_channels ls thr]: the initial
+   listeners are distinct, no AddListener thread registers one of them, no two AddListener threads
+   register the same channel (the second entry of `assumptions` in props/C17.json, literally). *)
+
+(* 12a. Under [distinct_channels], w.listeners has no duplicates in every reachable state as the running
+      critical section leaves it, hence in every reachable state with mux free: the hypothesis
+      [NoDup (pls (c_p sn))] of 8d (validity of ops), 8e and 10b — and [NoDup ls] — follow from it. *)
+Theorem C17_listeners_distinct :
+  forall addr_of ls thr sch sn,
+    wallet_threads addr_of thr ->
+    exec wcfg wstep (wallet_init ls thr) sch sn ->
+    distinct_channels ls thr ->
+    NoDup (pls (fst (phi sn))) /\ (c_holder _ _ _ _ _ _ sn = None -> NoDup (pls (c_p _ _ _ _ _ _ sn))).
+Proof. exact (translated_listeners_distinct fswallet_prog fuel (proj1 C17_discovery_steps_atomic) (proj1 C17_translated_paths_cover)). Qed.
+Print Assumptions C17_listeners_distinct.
+
+(* 12b. 11b with hypotheses on the inputs only: for all threads of the wallet kinds with distinct
+      channels, every schedule and EVERY reachable state. *)
+Theorem C17_fine_grained_always_inputs :
+  forall addr_of ls thr sch sn,
+    wallet_threads addr_of thr ->
+    exec wcfg wstep (wallet_init ls thr) sch sn ->
+    distinct_channels ls thr ->
+    let E := c_e _ _ _ _ _ _ sn in let P' := fst (phi sn) in
+    NoDup (pls P') /\
+    NoDup (elog E) /\
+    NoDup (elog E ++ flat_map n_remaining (en E)) /\
+    (forall l a, In (l, a) (elog E ++ flat_map n_remaining (en E)) ->
+       In l (pls P') /\ In a (pl P') /\ In a (file_addrs addr_of (ef E))) /\
+    NoDup (pl P') /\ incl (pl P') (file_addrs addr_of (ef E)).
+Proof. exact (translated_always_outcome_inputs fswallet_prog fuel (proj1 C17_discovery_steps_atomic) (proj1 C17_translated_paths_cover)). Qed.
+Print Assumptions C17_fine_grained_always_inputs.
+
+(* 12c. ... and 8e / 10b with hypotheses on the inputs only (executions ending with mux free): the
+      exactly-once conjunct for the initial listeners and convergence by events. *)
+Theorem C17_fine_grained_exactly_once_inputs :
+  forall addr_of ls thr sch sn,
+    wallet_threads addr_of thr ->
+    exec wcfg wstep (wallet_init ls thr) sch sn -> c_holder _ _ _ _ _ _ sn = None ->
+    distinct_channels ls thr ->
+    let P := c_p _ _ _ _ _ _ sn in let E := c_e _ _ _ _ _ _ sn in
+    (flat_map n_remaining (en E) = [] ->
+       forall l a, In l ls -> In a (pl P) -> count_occ pair_dec (elog E) (l, a) = 1) /\
+    ((forall f a, In f (ef E) -> addr_of f = Some a ->
+        exists u o, nth_error thr u = Some (event_code addr_of f) /\
+                    nth_error (c_thr _ _ _ _ _ _ sn) u = Some (Done o)) ->
+     forall a, In a (pl P) <-> In a (file_addrs addr_of (ef E))).
+Proof.
+  intros addr_of ls thr sch sn Hthr He Hfin Hd. cbv zeta.
+  pose proof (proj2 (C17_listeners_distinct addr_of ls thr sch sn Hthr He Hd) Hfin) as Hnd.
+  split.
+  - exact (proj2 (proj2 (proj2 (proj2 (C17_fine_grained_exactly_once addr_of ls thr sch sn Hthr He Hfin Hnd (proj1 Hd)))))).
+  - exact (C17_fine_grained_converges addr_of ls thr sch sn Hthr He Hfin Hnd).
+Qed.
+Print Assumptions C17_fine_grained_exactly_once_inputs.
+
+(* non-vacuity of [distinct_channels]: it holds for the example threads of 11 (initial listener 100,
+   AddListener 7), fails when a thread registers an initial listener, fails when two threads register
+   the same channel *)
+Example C17_distinct_channels_nonvacuous :
+  distinct_channels [100%N] al_thr /\
+  ~ distinct_channels [7%N] al_thr /\
+  ~ distinct_channels [100%N] [add_code 7%N; add_code 7%N].
+Proof. exact distinct_example. Qed.
